@@ -3,23 +3,15 @@
 use crate::{EncodeMode, MFType};
 
 // C18-C / C03-B: .lzma writer with a declared size: header layout (LZMA_Alone: props, dict LE32, size LE64 or all-ones),
-// writes beyond the declared size are refused before anything is encoded, finishing short is refused.
-//@ {"name":"c18c_lzma_expected_size","props":["C18","C03","C19"],"obligation":"C18-C","timeout":1500,"mem_gb":9,"functions":["enc::lzma_writer::LZMAWriter::new","enc::lzma_writer::LZMAWriter::write","enc::lzma_writer::LZMAWriter::finish","lz::lz_encoder::LZEncoderData::fill_window","enc::encoder::LZMAEncoder::encode_for_lzma1"],"bounds":"lc=1, lp=0, pb=2, dict_size 4096 (concrete); expected size None or any u64; end-marker flag symbolic (all four combinations of the 5-argument constructor); two write calls of 2 and 1 bytes; Fast/HC4; unwind 14","assumes":["writes are shorter than the encoder's look-ahead, so no symbol is coded before finish (the coding loop itself is outside this harness)","finish() is checked separately with concrete sizes (c18c_lzma_finish_short_*)"]}
-#[kani::proof]
-#[kani::unwind(14)]
-#[kani::stub(crate::enc::encoder::LZMAEncoder::new, crate::enc::encoder::verif_stubs_enc::verif_cheap_encoder)]
-fn c18c_lzma_expected_size() {
-    // options concrete: a symbolic dictionary size makes the window buffer a symbolic-size object and every copy into
-    // it a whole-array update (measured: > 20 min, 9 GB); the header arithmetic for all values is in c03b below
+// writes beyond the declared size are refused before anything is encoded.  The declared size is CONCRETE per harness
+// (a symbolic size makes the accept/refuse branch inside write() symbolic; CBMC then merges the "window untouched" and
+// "window filled" states and every later access to the 270 KB window is a symbolic-offset operation: > 12 min, 7 GB);
+// the written bytes and the end-marker flag are symbolic.
+fn lzma_expected_size(expected: Option<u64>) {
     let (lc, pb): (u32, u32) = (1, 2);
     let dict: u32 = 4096;
     let o = LZMAOptions::new(dict, lc, 0, pb, EncodeMode::Fast, 32, MFType::HC4, 4);
-    let has_exp: bool = kani::any();
-    let exp: u64 = kani::any();
-    let expected = if has_exp { Some(exp) } else { None };
     let marker: bool = kani::any();
-    // the sink lives outside the writer (a sink embedded in the ~40 KB writer struct makes every sink access a
-    // whole-struct byte operation for CBMC)
     let mut sink = Sink::<32>::new();
     let w = LZMAWriter::new(&mut sink, &o, true, marker, expected);
     assert!(w.is_ok());
@@ -30,34 +22,59 @@ fn c18c_lzma_expected_size() {
         assert!(s.buf[0] as u32 == (pb * 5) * 9 + lc, "C03-B: properties byte");
         assert!(u32::from_le_bytes([s.buf[1], s.buf[2], s.buf[3], s.buf[4]]) == dict, "C03-B: dictionary size field");
         let sz = u64::from_le_bytes([s.buf[5], s.buf[6], s.buf[7], s.buf[8], s.buf[9], s.buf[10], s.buf[11], s.buf[12]]);
-        assert!(sz == if has_exp { exp } else { u64::MAX }, "C18-C: header must carry exactly the declared size (all ones when unknown)");
+        assert!(sz == expected.unwrap_or(u64::MAX), "C18-C: header must carry exactly the declared size (all ones when unknown)");
     }
     assert!(w.use_end_marker == marker);
-    let data = [0x41u8, 0x42, 0x43];
-    // write lengths are concrete (symbolic-length copies into the LZ window are whole-array operations for CBMC);
-    // what is symbolic is the declared size they are compared with
-    let (n1, n2): (usize, usize) = (2, 1);
-    let r1 = w.write(&data[..n1]);
-    let mut accepted = 0u64;
-    if has_exp && exp < n1 as u64 {
+    let data: [u8; 3] = kani::any();
+    let exp = expected.unwrap_or(u64::MAX);
+    let r1 = w.write(&data[..2]);
+    if exp < 2 {
         assert!(r1.is_err(), "C18-C: write beyond the declared size accepted");
     } else {
-        assert!(matches!(r1, Ok(k) if k == n1));
-        accepted += n1 as u64;
+        assert!(matches!(r1, Ok(2)));
+        let r2 = w.write(&data[2..]);
+        if exp < 3 {
+            assert!(r2.is_err(), "C18-C: write beyond the declared size accepted");
+            assert!(w.get_uncompressed_size() == 2);
+        } else {
+            assert!(matches!(r2, Ok(1)));
+            assert!(w.get_uncompressed_size() == 3, "C18-C: byte counter differs from the bytes accepted");
+        }
+        assert!(w.rc.inner().len == 13, "no symbol may be coded before the look-ahead is filled");
     }
-    let r2 = w.write(&data[..n2]);
-    if has_exp && exp < accepted + n2 as u64 {
-        assert!(r2.is_err(), "C18-C: write beyond the declared size accepted");
-    } else {
-        assert!(matches!(r2, Ok(k) if k == n2));
-        accepted += n2 as u64;
-    }
-    assert!(w.get_uncompressed_size() == accepted, "C18-C: byte counter differs from the bytes accepted");
-    assert!(w.rc.inner().len == 13, "no symbol may be coded before the look-ahead is filled");
-    kani::cover!(has_exp && r2.is_err(), "write beyond the declared size refused");
-    kani::cover!(!has_exp, "unknown size");
+    kani::cover!(marker, "end marker requested");
     core::mem::forget(w);
 }
+
+//@ {"name":"c18c_lzma_expected_size_none","props":["C18","C03","C19"],"obligation":"C18-C","timeout":1500,"mem_gb":9,"functions":["enc::lzma_writer::LZMAWriter::new","enc::lzma_writer::LZMAWriter::write","lz::lz_encoder::LZEncoderData::fill_window","enc::encoder::LZMAEncoder::encode_for_lzma1"],"bounds":"lc=1, lp=0, pb=2, dict 4096; no declared size; two write calls of 2 and 1 arbitrary bytes; end-marker flag symbolic; unwind 14","assumes":["writes are shorter than the encoder's look-ahead, so no symbol is coded; finish() is checked separately (c18c_lzma_finish_short_*)"],"stubs":["LZMAEncoder::new -> verif_cheap_encoder"]}
+#[kani::proof]
+#[kani::unwind(14)]
+#[kani::stub(crate::enc::encoder::LZMAEncoder::new, crate::enc::encoder::verif_stubs_enc::verif_cheap_encoder)]
+fn c18c_lzma_expected_size_none() { lzma_expected_size(None); }
+
+//@ {"name":"c18c_lzma_expected_size_1","props":["C18","C03","C19"],"obligation":"C18-C","timeout":1500,"mem_gb":9,"functions":["enc::lzma_writer::LZMAWriter::new","enc::lzma_writer::LZMAWriter::write","lz::lz_encoder::LZEncoderData::fill_window","enc::encoder::LZMAEncoder::encode_for_lzma1"],"bounds":"lc=1, lp=0, pb=2, dict 4096; declared size 1: the first 2-byte write is refused; two write calls of 2 and 1 arbitrary bytes; end-marker flag symbolic; unwind 14","assumes":["writes are shorter than the encoder's look-ahead, so no symbol is coded; finish() is checked separately (c18c_lzma_finish_short_*)"],"stubs":["LZMAEncoder::new -> verif_cheap_encoder"]}
+#[kani::proof]
+#[kani::unwind(14)]
+#[kani::stub(crate::enc::encoder::LZMAEncoder::new, crate::enc::encoder::verif_stubs_enc::verif_cheap_encoder)]
+fn c18c_lzma_expected_size_1() { lzma_expected_size(Some(1)); }
+
+//@ {"name":"c18c_lzma_expected_size_2","props":["C18","C03","C19"],"obligation":"C18-C","timeout":1500,"mem_gb":9,"functions":["enc::lzma_writer::LZMAWriter::new","enc::lzma_writer::LZMAWriter::write","lz::lz_encoder::LZEncoderData::fill_window","enc::encoder::LZMAEncoder::encode_for_lzma1"],"bounds":"lc=1, lp=0, pb=2, dict 4096; declared size 2: the second write is refused; two write calls of 2 and 1 arbitrary bytes; end-marker flag symbolic; unwind 14","assumes":["writes are shorter than the encoder's look-ahead, so no symbol is coded; finish() is checked separately (c18c_lzma_finish_short_*)"],"stubs":["LZMAEncoder::new -> verif_cheap_encoder"]}
+#[kani::proof]
+#[kani::unwind(14)]
+#[kani::stub(crate::enc::encoder::LZMAEncoder::new, crate::enc::encoder::verif_stubs_enc::verif_cheap_encoder)]
+fn c18c_lzma_expected_size_2() { lzma_expected_size(Some(2)); }
+
+//@ {"name":"c18c_lzma_expected_size_3","props":["C18","C03","C19"],"obligation":"C18-C","timeout":1500,"mem_gb":9,"functions":["enc::lzma_writer::LZMAWriter::new","enc::lzma_writer::LZMAWriter::write","lz::lz_encoder::LZEncoderData::fill_window","enc::encoder::LZMAEncoder::encode_for_lzma1"],"bounds":"lc=1, lp=0, pb=2, dict 4096; declared size 3: both writes fit exactly; two write calls of 2 and 1 arbitrary bytes; end-marker flag symbolic; unwind 14","assumes":["writes are shorter than the encoder's look-ahead, so no symbol is coded; finish() is checked separately (c18c_lzma_finish_short_*)"],"stubs":["LZMAEncoder::new -> verif_cheap_encoder"]}
+#[kani::proof]
+#[kani::unwind(14)]
+#[kani::stub(crate::enc::encoder::LZMAEncoder::new, crate::enc::encoder::verif_stubs_enc::verif_cheap_encoder)]
+fn c18c_lzma_expected_size_3() { lzma_expected_size(Some(3)); }
+
+//@ {"name":"c18c_lzma_expected_size_big","props":["C18","C03","C19"],"obligation":"C18-C","timeout":1500,"mem_gb":9,"functions":["enc::lzma_writer::LZMAWriter::new","enc::lzma_writer::LZMAWriter::write","lz::lz_encoder::LZEncoderData::fill_window","enc::encoder::LZMAEncoder::encode_for_lzma1"],"bounds":"lc=1, lp=0, pb=2, dict 4096; huge declared size; two write calls of 2 and 1 arbitrary bytes; end-marker flag symbolic; unwind 14","assumes":["writes are shorter than the encoder's look-ahead, so no symbol is coded; finish() is checked separately (c18c_lzma_finish_short_*)"],"stubs":["LZMAEncoder::new -> verif_cheap_encoder"]}
+#[kani::proof]
+#[kani::unwind(14)]
+#[kani::stub(crate::enc::encoder::LZMAEncoder::new, crate::enc::encoder::verif_stubs_enc::verif_cheap_encoder)]
+fn c18c_lzma_expected_size_big() { lzma_expected_size(Some(u64::MAX / 2)); }
 
 // C18-C: finish() short of the declared size is refused - whatever the end-marker flag says.  (Declared size and byte
 // count are concrete here: with a symbolic size CBMC walks the whole encoder behind the size check - 9 GB OOM.)
